@@ -249,6 +249,34 @@ theorem injectS_illtyped (k : Inj) (Φ : List FunSig) (Γ : List Ty) (s : Stmt) 
     cases ht : typeOf Φ (Γ ++ [.nat]) b with
     | none => simp [ht] at hs
     | some T => simp [injectS, step, injectE_untypable k Φ _ b T π' ht hπ]
+  | printEnd e d =>
+    simp only [step] at hs
+    cases he : typeOf Φ Γ e with
+    | none => simp [he] at hs
+    | some Te =>
+      cases hd : typeOf Φ Γ d with
+      | none => simp [he, hd] at hs
+      | some Td =>
+        simp only [positionsS, List.mem_append, List.mem_map, Prod.mk.injEq] at hp
+        rcases hp with ⟨π', hπ, h0, rfl⟩ | ⟨π', hπ, h1, rfl⟩
+        · subst h0
+          simp [injectS, step, injectE_untypable k Φ Γ e Te π' he hπ]
+        · subst h1
+          simp [injectS, step, he, injectE_untypable k Φ Γ d Td π' hd hπ]
+  | defvK f a b =>
+    simp only [step] at hs
+    cases ha : typeOf Φ Γ a with
+    | none => simp [ha] at hs
+    | some Ta =>
+      cases hb : typeOf Φ Γ b with
+      | none => simp [ha, hb] at hs
+      | some Tb =>
+        simp only [positionsS, List.mem_append, List.mem_map, Prod.mk.injEq] at hp
+        rcases hp with ⟨π', hπ, h0, rfl⟩ | ⟨π', hπ, h1, rfl⟩
+        · subst h0
+          simp [injectS, step, injectE_untypable k Φ Γ a Ta π' ha hπ]
+        · subst h1
+          simp [injectS, step, ha, injectE_untypable k Φ Γ b Tb π' hb hπ]
   | fun1d p d b =>
     simp only [step] at hs
     cases hd : typeOf Φ Γ d with
